@@ -146,6 +146,10 @@ class C13Machine(RuleBasedStateMachine):
         except Exception as e:
             self.report('pre-process-raises', 'pre_process_dict raised %s: %s' % (type(e).__name__, e))
 
+    @rule()
+    def idle(self):
+        pass
+
     def check_all(self):
         ncomp = len(self.compiled)
         for i, (codec, ne, obj, want) in enumerate(self.compiled):
